@@ -35,15 +35,17 @@ import (
 // ---- AST of the template fragment -------------------------------------------------------
 
 type c05Node struct {
-	K    string    `json:"k"` // text field tojson include tpl required fail lookup filesget define bad
+	K    string    `json:"k"` // text field tojson include tpl tpljson required fail lookup filesget define bad
 	S    string    `json:"s,omitempty"`
 	Path []string  `json:"path,omitempty"`
 	Body []c05Node `json:"body,omitempty"`
 }
 
 const (
-	c05MarkA = "\x01"
+	c05MarkA = "\x01" // around the output of toJson
 	c05MarkB = "\x02"
+	c05MarkC = "\x03" // around the output of tpl ... | toJson (a JSON string literal whose text may contain marked JSON)
+	c05MarkD = "\x04"
 )
 
 func c05FieldText(p []string) string {
@@ -68,6 +70,8 @@ func c05Source(ns []c05Node) string {
 			b.WriteString("{{ include " + strconv.Quote(n.S) + " . }}")
 		case "tpl":
 			b.WriteString("{{ tpl " + strconv.Quote(c05Source(n.Body)) + " . }}")
+		case "tpljson":
+			b.WriteString("{{ tpl " + strconv.Quote(c05Source(n.Body)) + " . | toJson }}")
 		case "required":
 			b.WriteString("{{ required " + strconv.Quote(n.S) + " " + c05FieldText(n.Path) + " }}")
 		case "fail":
@@ -99,6 +103,8 @@ func c05CoqNodes(ns []c05Node) string {
 			it[i] = "NInclude " + c05Str(n.S)
 		case "tpl":
 			it[i] = "NTpl " + c05CoqNodes(n.Body)
+		case "tpljson":
+			it[i] = "NTplJson " + c05CoqNodes(n.Body)
 		case "required":
 			it[i] = "NRequired " + c05Str(n.S) + " " + c05StrList(n.Path)
 		case "fail":
@@ -267,6 +273,32 @@ func c05ParseJSON(b []byte) (any, error) {
 // c05Canon rewrites every \x01<json>\x02 segment of a rendered text canonically: keys sorted,
 // Files decoded, encoding/json's escapes.
 func c05Canon(s string) string {
+	// first the JSON string literals of tpl | toJson: canonicalise the text inside
+	if strings.Contains(s, c05MarkC) {
+		var b strings.Builder
+		for {
+			i := strings.Index(s, c05MarkC)
+			if i < 0 {
+				b.WriteString(s)
+				break
+			}
+			j := strings.Index(s[i+1:], c05MarkD)
+			if j < 0 {
+				b.WriteString(s)
+				break
+			}
+			seg := s[i+1 : i+1+j]
+			var inner string
+			if err := json.Unmarshal([]byte(seg), &inner); err == nil {
+				if out, err := json.Marshal(c05Canon(inner)); err == nil {
+					seg = string(out)
+				}
+			}
+			b.WriteString(s[:i+1] + seg + c05MarkD)
+			s = s[i+1+j+1:]
+		}
+		s = b.String()
+	}
 	var b strings.Builder
 	for {
 		i := strings.Index(s, c05MarkA)
